@@ -13,6 +13,9 @@ def call_method(ctx, b, method, r, invoked):
 
     def fn(*a, **k):
         invoked.append(method)
+        # the logical time at which the user function of a complex call returns (C17: a call whose
+        # function returns after the owner's record was closed cannot complete normally)
+        invoked.append(('t_fn_ret', ctx.clock()))
         return None
     if method == 'build_file':
         return b.build_file(p, 'LATE', fn)
@@ -85,6 +88,7 @@ def st_fork_late(ctx, fr, s, acc):
         with ctx.lock:
             ctx.stragglers.append({'tag': tag, 'where': where, 'method': method, 'path': r,
                                    't_call': t_call, 't_ret': t_ret, 'out': out, 'invoked': bool(invoked),
+                                   't_fn_ret': max([x[1] for x in invoked if isinstance(x, tuple)] or [None]),
                                    'thread': tid})
     fork = ctx.hooks.get('fork')
     if fork is not None:
